@@ -5,6 +5,13 @@
  *
  *   osc    <C: secret salt idctx sid rid> <S: secret salt idctx sid rid> <cseq> <sseq> <newmid|-1> <req> [<resp> <piv 0|1>]*
  *   tamper <C: 5> <S: 5> <cseq> <sseq> <newmid|-1> <req> <resp|-> <piv 0|1> <q|r> <flo> <fhi> <tlo> <thi>
+ *   oseq   <C: 5> <S: 5> <cseq> <sseq> <newmid|-1> { q <req> <d|l> | r <resp> <piv 0|1> <d|l|h|dd> | f <idx> }*
+ *          a SEQUENCE of exchanges on one client / server endpoint pair (sessions and their associations live for the
+ *          whole line): q = the client protects a request (d: delivered to the server, l: lost), r = the server protects
+ *          a response for the token in <resp> (d: delivered, l: lost, h: held back, dd: delivered twice), f = the idx-th
+ *          held datagram arrives now.  Output: transcript ` req= ureq= resp= uresp= uresp2= held late=` then ` | ` and the
+ *          trace of the CLIENT's association store: after every q `q:<piv>,<nonce>,<aad>,<is_observe>` (or q:none) for the
+ *          request's token, after every delivery to the client `d:<piv>,<is_observe>` / `d:none` for the datagram's token.
  *   optenc <piv> <kidctx|none> <kid|none> <b2 0|1>      optdec <hex>
  *   aad <alg> <kid> <piv>        nonce <civ> <kid> <piv>     derive <secret> <salt> <idctx> <sid> <rid>
  *   sha256 <m>   hmac <key> <m>   hkdf <salt> <ikm> <info> <len>   ccm <key> <nonce> <aad> <pt>
@@ -155,7 +162,9 @@ static int deliver(int i, const uint8_t *dg, size_t len, coap_pdu_t **res) {
   *res = NULL;
   if (!pdu) return 'u';
   if (!coap_check_option(pdu, COAP_OPTION_OSCORE, &oi)) { coap_delete_pdu(pdu); return 'p'; }
+  coap_lock_lock(g_ctx[i], coap_delete_pdu(pdu); return 'r');
   dec = coap_oscore_decrypt_pdu(g_sess[i], pdu);
+  coap_lock_unlock(g_ctx[i]);
   coap_delete_pdu(pdu);
   if (!dec) return 'r';
   *res = dec;
@@ -205,6 +214,110 @@ static void do_osc(char **w, int n) {
     printf(" uresp="); print_delivery(v, res);
   }
 out:
+  endpoint_down(0); endpoint_down(1);
+}
+
+/* ---- sequences of exchanges on one endpoint pair ------------------------------------------ */
+
+static void trace_assoc(FILE *t, const char *tag, const uint8_t *dg, size_t len, int full) {
+  /* the token of the (parsable) datagram dg selects the client's association */
+  coap_pdu_t *pdu = parse_bytes(dg, len);
+  oscore_association_t *a = NULL;
+  coap_bin_const_t tok;
+  fprintf(t, " %s:", tag);
+  if (!pdu) { fprintf(t, "unparsable"); return; }
+  tok = coap_pdu_get_token(pdu);
+  coap_lock_lock(g_ctx[0], coap_delete_pdu(pdu); return);
+  a = oscore_find_association(g_sess[0], &tok);
+  coap_lock_unlock(g_ctx[0]);
+  if (!a) fprintf(t, "none");
+  else {
+    if (a->partial_iv) h_puthex(t, a->partial_iv->s, a->partial_iv->length); else fputc('-', t);
+    if (full) {
+      fputc(',', t);
+      if (a->nonce) h_puthex(t, a->nonce->s, a->nonce->length); else fputc('-', t);
+      fputc(',', t);
+      if (a->aad) h_puthex(t, a->aad->s, a->aad->length); else fputc('-', t);
+    }
+    fprintf(t, ",%d", a->is_observe ? 1 : 0);
+  }
+  coap_delete_pdu(pdu);
+}
+
+#define MAX_HELD 8
+static void do_oseq(char **w, int n) {
+  long newmid = atol(w[13]);
+  uint8_t *held[MAX_HELD]; size_t heldlen[MAX_HELD]; int nheld = 0;
+  char *tbuf = NULL; size_t tlen = 0;
+  FILE *t;
+  coap_pdu_t *res;
+  uint8_t *dg; size_t dglen;
+  int v, k = 14;
+  if (!endpoint_up(0, w + 1, strtoull(w[11], NULL, 10))) { printf("bad-context"); endpoint_down(0); return; }
+  if (!endpoint_up(1, w + 6, strtoull(w[12], NULL, 10))) { printf("bad-context"); endpoint_down(0); endpoint_down(1); return; }
+  t = open_memstream(&tbuf, &tlen);
+  printf("seq");
+  while (k < n) {
+    if (!strcmp(w[k], "q") && k + 2 < n) {
+      coap_pdu_t *req = parse_hex(w[k + 1]);
+      if (!req) { printf(" req=bad-input"); break; }
+      dg = protect(0, req, 0, newmid, &dglen);
+      if (!dg) {
+        size_t rl; uint8_t *rb = h_unhex(w[k + 1], &rl);
+        printf(" req=fail");
+        trace_assoc(t, "q", rb, rl, 1);
+        free(rb);
+      } else {
+        printf(" req="); h_puthex(stdout, dg, dglen);
+        trace_assoc(t, "q", dg, dglen, 1);
+        if (w[k + 2][0] == 'd') {
+          v = deliver(1, dg, dglen, &res);
+          printf(" ureq="); print_delivery(v, res);
+        }
+        free(dg);
+      }
+      coap_delete_pdu(req);
+      k += 3;
+    } else if (!strcmp(w[k], "r") && k + 3 < n) {
+      coap_pdu_t *rsp = parse_hex(w[k + 1]);
+      const char *how = w[k + 3];
+      if (!rsp) { printf(" resp=bad-input"); break; }
+      dg = protect(1, rsp, atoi(w[k + 2]), newmid, &dglen);
+      coap_delete_pdu(rsp);
+      if (!dg) printf(" resp=fail");
+      else {
+        printf(" resp="); h_puthex(stdout, dg, dglen);
+        if (how[0] == 'd') {
+          v = deliver(0, dg, dglen, &res);
+          printf(" uresp="); print_delivery(v, res);
+          trace_assoc(t, "d", dg, dglen, 0);
+          if (how[1] == 'd') {
+            v = deliver(0, dg, dglen, &res);
+            printf(" uresp2="); print_delivery(v, res);
+            trace_assoc(t, "d", dg, dglen, 0);
+          }
+          free(dg);
+        } else if (how[0] == 'h' && nheld < MAX_HELD) {
+          held[nheld] = dg; heldlen[nheld] = dglen; nheld++;
+          printf(" held");
+        } else free(dg);
+      }
+      k += 4;
+    } else if (!strcmp(w[k], "f") && k + 1 < n) {
+      int idx = atoi(w[k + 1]);
+      if (idx < 0 || idx >= nheld) printf(" late=none");
+      else {
+        v = deliver(0, held[idx], heldlen[idx], &res);
+        printf(" late="); print_delivery(v, res);
+        trace_assoc(t, "d", held[idx], heldlen[idx], 0);
+      }
+      k += 2;
+    } else { printf(" bad-step"); break; }
+  }
+  fclose(t);
+  printf(" |%s", tbuf);
+  free(tbuf);
+  for (int i = 0; i < nheld; i++) free(held[i]);
   endpoint_down(0); endpoint_down(1);
 }
 
@@ -402,11 +515,12 @@ static void do_crypto(char **w, int n) {
 }
 
 static void step(char *line) {
-  static char *w[64];
-  int n = h_words(line, w, 64);
+  static char *w[160];
+  int n = h_words(line, w, 160);
   if (n < 1) { printf("bad-op"); return; }
   if (!strcmp(w[0], "osc") && n >= 15 && (n - 15) % 2 == 0) { do_osc(w, n); return; }
   if (!strcmp(w[0], "tamper") && n == 22) { do_tamper(w); return; }
+  if (!strcmp(w[0], "oseq") && n >= 14) { do_oseq(w, n); return; }
   if (!strcmp(w[0], "optenc") && n == 5) { do_optenc(w); return; }
   if (!strcmp(w[0], "optdec") && n == 2) { do_optdec(w); return; }
   if (!strcmp(w[0], "aad") && n == 4) { do_aad(w); return; }
